@@ -69,7 +69,7 @@ class Down:
         self._e("C", None)
 
 
-def run_once(kind, seqname, preempts, unsub=False):
+def run_once(kind, seqname, preempts, unsub=False, sub_first=False):
     seq = SEQ[seqname]
     with gate.install(*MODS):
         gate.watch(m_subj, m_async, m_beh, m_observer, m_inner, *([m_replay, m_so] if kind == "replay" else []))
@@ -87,12 +87,16 @@ def run_once(kind, seqname, preempts, unsub=False):
                 else:
                     s.on_error(ERR)
 
-        g.spawn(producer)
-        if unsub:
-            # the late subscriber unsubscribes again at once: it may see any prefix of a sequential outcome
-            g.spawn(lambda: s.subscribe(late.on_next, late.on_error, late.on_completed).dispose())
-        else:
-            g.spawn(lambda: s.subscribe(late.on_next, late.on_error, late.on_completed))
+        def subscriber():
+            if unsub:
+                # the late subscriber unsubscribes again at once: it may see any prefix of a sequential outcome
+                s.subscribe(late.on_next, late.on_error, late.on_completed).dispose()
+            else:
+                s.subscribe(late.on_next, late.on_error, late.on_completed)
+
+        # which thread starts first decides which interleavings are within reach of 2 preemptions
+        for body in ((subscriber, producer) if sub_first else (producer, subscriber)):
+            g.spawn(body)
         r = g.run(preempts, maxsteps=2000)
         ok = r == "done" and not g.errors
         full = outcomes(kind, seq)[0]  # a subscriber present from the start
@@ -110,10 +114,10 @@ _BASE = {}
 
 def harness_body(kind, a, inst):
     gate.GRANULARITY = inst.get("gran", "fine")
-    key = (kind, inst["seq"], gate.GRANULARITY, inst.get("unsub", 0))
+    key = (kind, inst["seq"], gate.GRANULARITY, inst.get("unsub", 0), inst.get("sf", 0))
     if key not in _BASE:
         with gate.untraced():
-            _BASE[key] = run_once(kind, inst["seq"], [], bool(inst.get("unsub")))
+            _BASE[key] = run_once(kind, inst["seq"], [], bool(inst.get("unsub")), bool(inst.get("sf")))
     ok0, L = _BASE[key]
     if not ok0:
         return False
@@ -128,7 +132,7 @@ def harness_body(kind, a, inst):
             return True  # beyond the end of the run
         preempts.append((gate.concrete(pre[i], lo, hi), -1))
     with gate.untraced():
-        ok, _ = run_once(kind, inst["seq"], preempts, bool(inst.get("unsub")))
+        ok, _ = run_once(kind, inst["seq"], preempts, bool(inst.get("unsub")), bool(inst.get("sf")))
     cover("ran")
     return ok
 
@@ -138,17 +142,18 @@ def instances_for(kind):
         out = []
         gran = "coarse" if kind == "replay" else "fine"  # replay: scheduled observers and trampolines make fine-grained runs long
         gate.GRANULARITY = gran
-        for q, unsub in [(q, u) for q in SEQ for u in (0, 1)]:
-            L = run_once(kind, q, [], bool(unsub))[1] + 2
+        combos = [(q, u, 0) for q in SEQ for u in (0, 1)] + [("n_n_c", 0, 1), ("n_e", 0, 1)]  # last two: the subscriber thread starts first
+        for q, unsub, sf in combos:
+            L = run_once(kind, q, [], bool(unsub), bool(sf))[1] + 2
             P = 1 if (kind == "replay" and tier == "quick" and q in ("n_n_c", "n_e")) else 2
             if P == 1:
-                out.append({"seq": q, "unsub": unsub, "P": 1, "gran": gran, "lo": 0, "hi": 100000})
+                out.append({"seq": q, "unsub": unsub, "sf": sf, "P": 1, "gran": gran, "lo": 0, "hi": 100000})
                 continue
             lo, acc = 0, 0
             for p in range(L + 1):
                 acc += L - p
                 if acc >= (500 if tier == "quick" else 1500) or p == L:
-                    out.append({"seq": q, "unsub": unsub, "P": 2, "gran": gran, "lo": lo, "hi": p if p < L else 100000})
+                    out.append({"seq": q, "unsub": unsub, "sf": sf, "P": 2, "gran": gran, "lo": lo, "hi": p if p < L else 100000})
                     lo, acc = p + 1, 0
         return out
     return instances
